@@ -25,8 +25,32 @@ def gen_cases(ctx, n_files, sizes, rng=None):
     return cases
 
 
-def _qgen(case, recs):
-    return [["len", i, None] for i, r in enumerate(recs) if r["ctor"] is None]
+def _qgen(case, recs, rng=None, cap=70):
+    """len + the file-level waveform accessor HDF5Reader.get_waveforms for every event and every
+    waveform index 0 .. (rows of that event)+1 (int / float / 'direct'/'reflected' forms), i.e.
+    including the requests one and two past the event's last waveform."""
+    import random
+    rng = rng or random.Random(len(json.dumps(case)))
+    qs = []
+    for i, r in enumerate(recs):
+        if r["ctor"] is not None:
+            continue
+        qs.append(["len", i, None])
+        evs = r["events"]
+        if evs[0] != "ok":
+            continue
+        wq = []
+        for e, ev in enumerate(evs[2]):
+            w = ev[ioc.TABLES.index("W")]
+            nrows = len(w) if isinstance(w, list) else 0
+            wq.append(["wfev", i, None, e])
+            for k in range(nrows + 2):
+                wq.append(["wf", i, None, e, k, rng.choice(["int", "int", "str", "float"])])
+        if len(wq) > cap:
+            # keep every one-past-the-end request of a sample of events, sample the rest
+            wq = rng.sample(wq, cap)
+        qs += wq
+    return qs
 
 
 def corpus_cases():
@@ -78,7 +102,7 @@ def run(ctx):
     corp = corpus_cases()
     if corp:
         problems += ioc.run_batch(ctx, corp, PROP, stats, query_gen=_qgen, label="k")
-    if ctx.thorough or escalate:
+    if ctx.thorough:       # a changed pin / failed proof adds the search batch only (time cap of the quick tier)
         n_files = ctx.n(110, 380)
         sizes = [0, 1, 2, 3, 4, 6, 8, 12, 16, 25] + ([25, 40, 60, 120, 200] if ctx.thorough else [])
     else:
@@ -88,7 +112,7 @@ def run(ctx):
     # search: property-level probe on more histories, without the model (always when thorough,
     # or when the proof / correspondence / pins are not clean)
     if ctx.thorough or escalate or problems:
-        extra = gen_cases(ctx, ctx.n(90, 300), [1, 2, 3, 4, 5, 6, 8, 10])
+        extra = gen_cases(ctx, ctx.n(60, 300), [1, 2, 3, 4, 5, 6, 8, 10])
         problems += ioc.run_batch(ctx, extra, PROP, stats, query_gen=_qgen, with_model=False, label="s")
         ctx.extra["search"] = {"ran": True, "evaluations": len(extra), "oracle": "python restatement of the property from the inputs (expected_event / oracle_c11)"}
     else:
